@@ -2973,6 +2973,14 @@ func (dsc *dataStoreCommand) setRemove(keyName string, members []string) (output
 		}
 	}
 
+	if removals > 0 {
+		dsc.setDirty()
+		if m.count == 0 {
+			// a set never exists empty
+			dsc.ds.data.remove(keyName)
+		}
+	}
+
 	output.data = respInt(removals)
 	return
 }
